@@ -8,14 +8,20 @@ def sh(cmd, cwd=None, env=None, timeout=900):
     r = subprocess.run(cmd, shell=True, cwd=cwd, env=env, capture_output=True, text=True, timeout=timeout)
     return r.returncode, (r.stdout + r.stderr)
 res = {'property': pid, 'patch': patch}
-wt = tempfile.mkdtemp(prefix='seedwt-')
-os.rmdir(wt)
-try:
+wt = '/tmp/wt-%s' % pid          # the scratch worktree the change was written in (demos assert this path)
+own = os.path.isdir(wt)
+if not own:
+    wt = tempfile.mkdtemp(prefix='seedwt-')
+    os.rmdir(wt)
     rc, out = sh('git -C /repo worktree add -q --detach %s HEAD' % wt)
     assert rc == 0, out
+try:
+    sh('git checkout -- .', cwd=wt)
     env = dict(os.environ, PYTHONPATH=wt)
-    shutil.copy(demo, os.path.join(wt, '_demo.py'))
-    rc0, out0 = sh('/venv/bin/python _demo.py', cwd=wt, env=env)
+    os.makedirs(os.path.join(wt, 'OUT'), exist_ok=True)
+    dst = os.path.join(wt, 'OUT', '_confirm_demo.py')
+    shutil.copy(demo, dst)
+    rc0, out0 = sh('/venv/bin/python OUT/_confirm_demo.py', cwd=wt, env=env)
     res['demo_without_change'] = rc0
     rc, out = sh('git apply %s' % patch, cwd=wt)
     res['applies'] = rc == 0
@@ -23,12 +29,18 @@ try:
         res['apply_error'] = out[-300:]
     else:
         rc, out = sh('/venv/bin/python -m pytest -q -p no:cacheprovider --timeout=900 --continue-on-collection-errors 2>&1 | tail -3', cwd=wt, env=env)
-        res['suite'] = [l for l in out.splitlines() if 'passed' in l or 'failed' in l][-1:] 
-        rc1, out1 = sh('/venv/bin/python _demo.py', cwd=wt, env=env)
+        res['suite'] = [l for l in out.splitlines() if 'passed' in l or 'failed' in l][-1:]
+        rc1, out1 = sh('/venv/bin/python OUT/_confirm_demo.py', cwd=wt, env=env)
         res['demo_with_change'] = rc1
         res['demo_tail'] = out1.strip().splitlines()[-2:]
 finally:
-    sh('git -C /repo worktree remove --force %s' % wt)
+    sh('git checkout -- .', cwd=wt)
+    try:
+        os.remove(os.path.join(wt, 'OUT', '_confirm_demo.py'))
+    except OSError:
+        pass
+    if not own:
+        sh('git -C /repo worktree remove --force %s' % wt)
 res['confirmed'] = bool(res.get('applies') and res.get('demo_without_change') == 0 and res.get('demo_with_change') not in (0, None)
                         and res.get('suite') and res['suite'][0].strip().startswith('3 failed, 92 passed'))
 # now the checks against /repo with the patch applied
